@@ -14,7 +14,7 @@ func init() {
 		Technique:   "guarded-sink, ordering and loop rules on the SSA CFG of osutil.EnsureDirStateGlobs, EnsureTreeState, EnsureFileState and the file-state comparators; who-may-call of the write primitives",
 		Explanation: "Structural necessary conditions for 'managed files are synchronised exactly and the directory fails closed': (R1) EnsureDirStateGlobs: when a write fails, the desired content and the changed list are cleared before the clean-up, the directory is globbed AFTER the write phase (so files written earlier in the same call are seen), and the clean-up then removes every matching file; (R2) a file is removed only if it came out of filepath.Glob(dir/glob) and is passed over only when it is desired content; removed/changed report only operations that succeeded; (R3) nothing is written before every desired name was validated (no path component, matches a glob); (R4) regular files are written through AtomicWrite and symlinks through AtomicSymlink, only when the comparator did not report equality, and the regular-file comparator reports equality only after comparing permissions, size and content; (R5) EnsureTreeState: on failure every known sub-directory (not only the desired ones) is cleaned with empty content, and nothing is written before validation.",
 		NotDecided:  "what the security backends do with the changed/removed lists; races with other writers of the directory; the file system's own atomicity (C06).",
-		Run:         func(c *Ctx) { runC23(c); runC23x(c) },
+		Run:         func(c *Ctx) { runC23(c); runC23x(c); runC23z(c) },
 	})
 }
 
